@@ -52,6 +52,7 @@ pub fn c01(ctx: &Ctx) -> Collector {
     run_space(&col, 12, &spaces::s_group(ctx.tier.thorough()), &p, true, &no_extra);
     run_space(&col, 13, &spaces::s_small(if ctx.tier.thorough() { &[None, Some(0)] } else { &[None] }, ctx.tier.thorough()), &p, true, &no_extra);
     run_space(&col, 14, &spaces::s_cap_families(ctx.tier.thorough()), &p, true, &no_extra);
+    run_space(&col, 15, &spaces::s_cross(ctx.tier.thorough()), &p, true, &no_extra);
     seeded_supplement(ctx, &col, 20, &p, true);
     col
 }
@@ -182,6 +183,7 @@ pub fn c05(ctx: &Ctx) -> Collector {
     run_space(&col, 1, &s_forced_versions(ctx.tier.thorough()), &p, false, &no_extra);
     run_space(&col, 2, &s_far_beyond(), &p, false, &no_extra);
     run_space(&col, 3, &spaces::s_opt(ctx.tier.thorough()), &p, false, &no_extra);
+    run_space(&col, 5, &spaces::s_cross(ctx.tier.thorough()), &p, false, &no_extra);
     if ctx.tier.thorough() {
         run_space(&col, 4, &spaces::s_len(Family::Hi, 7200), &p, false, &no_extra);
     }
@@ -203,6 +205,7 @@ pub fn c06(ctx: &Ctx) -> Collector {
     run_space(&col, 12, &spaces::s_small(if ctx.tier.thorough() { &[None, Some(0)] } else { &[None] }, ctx.tier.thorough()), &p, true, &no_extra);
     run_space(&col, 13, &spaces::s_opt(ctx.tier.thorough()), &p, true, &no_extra);
     run_space(&col, 14, &spaces::s_cap_families(ctx.tier.thorough()), &p, true, &no_extra);
+    run_space(&col, 15, &spaces::s_cross(ctx.tier.thorough()), &p, true, &no_extra);
     seeded_supplement(ctx, &col, 20, &p, true);
     col
 }
@@ -309,10 +312,9 @@ pub fn c09(ctx: &Ctx) -> Collector {
     run_space(&col, 1, &s_class_patterns(8), &p, false, &c09_extra);
     run_space(&col, 2, &s_byte_at_position(if ctx.tier.thorough() { 6 } else { 5 }), &p, false, &c09_extra);
     run_space(&col, 3, &s_long_auto(ctx.tier.thorough()), &p, false, &c09_extra);
-    if ctx.tier.thorough() {
-        // automatic mode over every length of each alphabet (mode left automatic wherever the content permits)
-        run_space(&col, 4, &spaces::s_len(Family::Ctr, 7200), &p, false, &c09_extra);
-    }
+    // automatic mode over the lengths of each alphabet up to the v40 capacity (mode left automatic wherever the
+    // content permits): a detection that changes with the length (e.g. a shortcut for long inputs) shows here
+    run_space(&col, 4, &spaces::s_len_tier(Family::Ctr, 7200, ctx.tier.thorough()), &p, false, &c09_extra);
     col
 }
 
@@ -336,6 +338,7 @@ pub fn c10(ctx: &Ctx) -> Collector {
     run_space(&col, 15, &s_far_beyond(), &p, false, &no_extra);
     run_space(&col, 16, &s_byte_at_position(if ctx.tier.thorough() { 5 } else { 4 }), &p, false, &no_extra);
     run_space(&col, 17, &spaces::s_cap_families(ctx.tier.thorough()), &p, false, &no_extra);
+    run_space(&col, 18, &spaces::s_cross(ctx.tier.thorough()), &p, false, &no_extra);
     seeded_supplement(ctx, &col, 20, &p, false);
     col
 }
